@@ -945,6 +945,13 @@ class PathStorage(OutputBase):
         traj_dir = os.path.join(archive_path, "accepted")
         # Create the needed directories:
         make_dirs(traj_dir)
+        # A step that crashed after storing its path is done again after a
+        # restart: files of the earlier attempt (their names differ) must not
+        # stay behind in the directory of the new path.
+        for leftover in os.listdir(traj_dir):
+            leftover_file = os.path.join(traj_dir, leftover)
+            if os.path.isfile(leftover_file):
+                os.remove(leftover_file)
         # Write order, energy and traj files to the archive:
         _ = self.output_path_files(step, [path, "ACC"], archive_path)
         path = self._move_path(path, traj_dir, self.keep_traj_fnames)
